@@ -10,7 +10,12 @@ import (
 	"golang.org/x/tools/go/ssa"
 )
 
-func init() { register("C17", propC17) }
+func init() {
+	register("C17", func(w *World, r *Report, tier string) {
+		propC17(w, r, tier)
+		importStateless(w, r, tier, []string{"nasConvert/GPRSTimer2.go", "nasConvert/GPRSTimer3.go", "nasConvert/SessionAMBR.go", "nasConvert/Time.go", "nasConvert/NetWorkName.go"}, "timer, rate, time and name conversions")
+	})
+}
 
 type timerSpec struct {
 	fn    string
